@@ -32,7 +32,7 @@ ASSUMPTIONS = ["region end inclusiveness is undefined by the syntax: both readin
 
 
 def plan(tier):
-    return {"cases": 1000 if tier == "quick" else 20000, "shards": 16,
+    return {"cases": 1000 if tier == "quick" else 60000, "shards": 16,
             "shard_budget_s": 300 if tier == "quick" else 3300}
 
 
